@@ -345,15 +345,16 @@ def examine(case):
         return res
     if case["kind"] == "drop":
         cls = rng.choice(["Query", "MySQLQuery", "SnowflakeQuery", "ClickHouseQuery"])
-        form = rng.choice(["table", "table_obj", "table_obj2", "table_obj3", "database", "user", "view", "index", "index_obj", "dictionary", "quota"])
+        # ("table_dot": a table NAME containing a dot, given as a string — one identifier, like create_table() makes of it)
+        form = rng.choice(["table", "table_dot", "table_obj", "table_obj2", "table_obj3", "database", "user", "view", "index", "index_obj", "dictionary", "quota"])
         if form in ("dictionary", "quota"):
             cls = "ClickHouseQuery"
-        if cls != "Query" and form in ("index", "index_obj") or (cls in ("MySQLQuery", "SnowflakeQuery") and form not in ("table", "table_obj", "table_obj2", "table_obj3")):
+        if cls != "Query" and form in ("index", "index_obj") or (cls in ("MySQLQuery", "SnowflakeQuery") and form not in ("table", "table_dot", "table_obj", "table_obj2", "table_obj3")):
             cls = "Query" if form not in ("dictionary", "quota") else cls
-        arg = {"table": "'t'", "table_obj": "T('t', schema='s')", "table_obj2": "Database('d').s.t",
+        arg = {"table": "'t'", "table_dot": "'exp.2024'", "table_obj": "T('t', schema='s')", "table_obj2": "Database('d').s.t",
                "table_obj3": "T('t', schema=('srv', 'd', 's'))", "database": "Database('d')" if rng.random() < 0.5 else "'d'",
                "user": "'u'", "view": "'v'", "index": "'ix'", "index_obj": "Index('ix')", "dictionary": "'dc'", "quota": "'qt'"}[form]
-        meth = {"table_obj": "drop_table", "table_obj2": "drop_table", "table_obj3": "drop_table", "index_obj": "drop_index"}.get(form, "drop_" + form)
+        meth = {"table_dot": "drop_table", "table_obj": "drop_table", "table_obj2": "drop_table", "table_obj3": "drop_table", "index_obj": "drop_index"}.get(form, "drop_" + form)
         ife = rng.random() < 0.5
         cluster = cls == "ClickHouseQuery" and rng.random() < 0.4
         src = "%s.%s(%s)%s%s" % (cls, meth, arg, ".if_exists()" if ife else "", ".on_cluster('c1')" if cluster else "")
@@ -364,10 +365,10 @@ def examine(case):
         res.nontrivial = ife or cluster
         res.tags = ["kind=drop", "form=" + form]
         ch = b.QUOTE_CHAR
-        name = {"table": q("t", ch), "table_obj": q("s", ch) + "." + q("t", ch),
+        name = {"table": q("t", ch), "table_dot": q("exp.2024", ch), "table_obj": q("s", ch) + "." + q("t", ch),
                 "table_obj2": ".".join(q(x, ch) for x in ("d", "s", "t")), "table_obj3": ".".join(q(x, ch) for x in ("srv", "d", "s", "t")), "database": q("d", ch), "user": q("u", ch), "view": q("v", ch),
                 "index": q("ix", ch), "index_obj": q("ix", ch), "dictionary": q("dc", ch), "quota": q("qt", ch)}[form]
-        kind = {"table_obj": "TABLE", "table_obj2": "TABLE", "table_obj3": "TABLE", "index_obj": "INDEX"}.get(form, form.upper())
+        kind = {"table_dot": "TABLE", "table_obj": "TABLE", "table_obj2": "TABLE", "table_obj3": "TABLE", "index_obj": "INDEX"}.get(form, form.upper())
         ref = "DROP %s %s%s" % (kind, "IF EXISTS " if ife else "", name)
         if cluster and kind != "DICTIONARY":
             ref += ' ON CLUSTER "c1"'
